@@ -5,7 +5,7 @@
    order, calls whose payload the receiver discards, connection loss at any point. *)
 From Coq Require Import ZArith List Bool.
 Import ListNotations.
-Require Import Verif.lib.PyLite Verif.gen.RefsGen Verif.lib.Refs Verif.lib.RefsProofs.
+Require Import Verif.lib.PyLite Verif.gen.RefsGen Verif.lib.Refs Verif.lib.RefsProofs Verif.lib.Gifts Verif.lib.GiftsProofs.
 Local Open Scope Z_scope.
 
 (* the counting invariant behind everything else, for every reachable state:
@@ -14,7 +14,7 @@ Local Open Scope Z_scope.
 Theorem C09_count_invariant : forall ops c,
   let s := run init ops in
   rc (o_tab (ow s)) c = recv_sum (h_trk (hd s)) c + inflight (ch_oh s) c + decs (ch_ho s) c + cnt (leaked s) c.
-Proof. intros ops c. exact (inv_count _ (Inv_reachable ops) c). Qed.
+Proof. exact count_invariant. Qed.
 Print Assumptions C09_count_invariant.
 
 (* "keeps it reachable under its connection-local id for as long as the other side holds a live proxy or a message
@@ -71,6 +71,29 @@ Theorem C09_no_leak_refuted :
 Proof. exact no_leak_refuted. Qed.
 Print Assumptions C09_no_leak_refuted.
 
+(* the guard of C09_no_leak_partial is EXACT.  At quiescence with every proxy dropped, in every history, the owner's
+   refcount of a clid is precisely the number of my-references with that clid that travelled in calls the receiver
+   discarded; so the table drains if and only if no call carrying a reference was discarded (sufficiency and necessity),
+   and every discarded reference does pin the object its clid was allocated for (D9) *)
+Theorem C09_leak_exact : forall ops,
+  let s := run init ops in
+  quiescent s -> no_proxy s -> forall c, rc (o_tab (ow s)) c = cnt (leaked s) c.
+Proof. exact leak_exact. Qed.
+Print Assumptions C09_leak_exact.
+
+Theorem C09_no_leak_iff : forall ops,
+  let s := run init ops in
+  quiescent s -> no_proxy s -> (o_tab (ow s) = [] <-> leaked s = []).
+Proof. exact no_leak_iff. Qed.
+Print Assumptions C09_no_leak_iff.
+
+Theorem C09_discarded_reference_pins : forall ops,
+  let s := run init ops in
+  forall c, In c (leaked s) ->
+  exists e, find_clid (o_tab (ow s)) c = Some e /\ cnt (leaked s) c <= oe_rc e /\ In (c, oe_obj e) (o_alloc (ow s)).
+Proof. exact discarded_reference_pins. Qed.
+Print Assumptions C09_discarded_reference_pins.
+
 (* "when the connection is lost both sides forget everything", and stay that way *)
 Theorem C09_loss_forgets : forall ops1 ops2,
   let s := run init (ops1 ++ ConnLost :: ops2) in
@@ -78,10 +101,46 @@ Theorem C09_loss_forgets : forall ops1 ops2,
 Proof. exact loss_forgets. Qed.
 Print Assumptions C09_loss_forgets.
 
-(* "... or a message carrying the reference is in flight", third-party form: for every sequence of give-aways, drops by the
-   gifter's application and decgifts, while a gift is outstanding (the recipient has not yet acknowledged the introduction)
-   the gifter's proxy is alive -- hence, by C09_no_early_release on the owner-gifter connection, the owner keeps the object *)
-Theorem C09_gift_outstanding_keeps_proxy : forall ops,
-  let g := grun ginit ops in 0 < g_gifts g -> gproxy_alive gift_table_pins_proxy g = true.
-Proof. exact gift_outstanding_keeps_proxy. Qed.
-Print Assumptions C09_gift_outstanding_keeps_proxy.
+
+(* ---- three parties (lib/Gifts.v): the giver's gift table (Broker.myGifts), for ALL interleavings of gives, drops by the
+   giver's application, deliveries of their-references / lookups / answers / decgifts.
+   The counting invariant: the count of a gift = their-references not yet resolved at the recipient (on the wire, being
+   looked up, answer on its way) + acknowledgements on their way: each their-reference is acknowledged exactly once, and
+   only after the recipient's lookup was answered *)
+Theorem C09_gift_count_invariant : forall ops id,
+  let s := trun tinit ops in gcount (gifts s) id = outstanding s id.
+Proof. exact gift_count_invariant. Qed.
+Print Assumptions C09_gift_count_invariant.
+
+(* "never receives a release for more references than it handed out", for gifts: remote_decgift always finds its entry,
+   with a sufficient count *)
+Theorem C09_decgift_bounded : forall ops,
+  let s := trun tinit ops in
+  gfail s = false /\
+  forall id n rest, ch_cb s = (id, n) :: rest ->
+    exists e, find_gift_id (gifts s) id = Some e /\ 0 < n <= ge_count e /\ snd (tstep s TRecvCB) = [].
+Proof. exact decgift_bounded. Qed.
+Print Assumptions C09_decgift_bounded.
+
+(* "... for as long as ... a message carrying the reference is in flight", third-party form: while a their-reference or
+   its lookup is on the way, the giver's entry exists and holds a proxy that is alive at the giver (so the giver sends no
+   decref: C09_no_early_release keeps the owner's entry), and the owner's object lives *)
+Theorem C09_gift_in_flight_pins : forall ops m,
+  let s := trun tinit ops in
+  In m (ch_bc s) \/ In m (lookups s) ->
+  exists e b, find_gift_id (gifts s) (tr_id m) = Some e /\ In b (bprox s) /\ bp_key b = ge_pin e /\ bp_alive (gifts s) b = true /\
+              (fst (bp_key b), bp_obj b) = tr_want m /\ obj_alive s (tr_want m) = true.
+Proof. exact gift_in_flight_pins. Qed.
+Print Assumptions C09_gift_in_flight_pins.
+
+Theorem C09_gift_entry_holds_proxy : forall ops e,
+  let s := trun tinit ops in In e (gifts s) -> exists b, In b (bprox s) /\ bp_key b = ge_pin e /\ 1 <= ge_count e.
+Proof. exact gift_entry_holds_proxy. Qed.
+Print Assumptions C09_gift_entry_holds_proxy.
+
+(* "once ... traffic has drained, the owner's tables no longer pin the object", for the giver's pin: no gift-table entry
+   survives quiescence *)
+Theorem C09_no_gift_leak : forall ops,
+  let s := trun tinit ops in tquiescent s -> gifts s = [].
+Proof. exact no_gift_leak. Qed.
+Print Assumptions C09_no_gift_leak.
